@@ -90,6 +90,19 @@ func scRand(seed int64, part, n int) *rand.Rand {
 	return rand.New(rand.NewSource(seed*1000003 + int64(part)*100003 + int64(n)))
 }
 
+// count: how many tokens equal to tok have been recorded
+func (r *recorder) count(tok string) int {
+	r.mu.Lock()
+	defer r.mu.Unlock()
+	n := 0
+	for _, t := range r.toks {
+		if t == tok {
+			n++
+		}
+	}
+	return n
+}
+
 // recorder: the observation of one scenario; order of tokens = order of rec.add calls (one lock).
 type recorder struct {
 	mu   sync.Mutex
